@@ -428,8 +428,22 @@ class Body:
         if k in ("copy", "move"):
             return self.expr_place(op["place"], depth, env)
         if k == "const":
+            if "promoted" in op:
+                pb = self.promoted_body(op["promoted"])
+                if pb is not None:
+                    return pb.expr_local(0)
             return E("const", const_key(op), t=op)
         return E("unknown", "operand")
+
+    def promoted_body(self, n):
+        ps = self.fn.get("promoted") or []
+        if n >= len(ps):
+            return None
+        if not hasattr(self, "_promoted"):
+            self._promoted = {}
+        if n not in self._promoted:
+            self._promoted[n] = Body(self.fn, ps[n]) if ps[n] is not self.m else None
+        return self._promoted[n]
 
     def expr_local(self, l, depth=0):
         if l in self._expr_memo:
